@@ -72,13 +72,17 @@ impl GenericSingleObjectWriter {
         if !Self::HEADER_LENGTH_RANGE.contains(&original_length) {
             Err(Details::IllegalSingleObjectWriterState.into())
         } else {
-            write_value_ref_owned_resolved(&self.resolved, v, &mut self.buffer)?;
-            writer
-                .write_all(&self.buffer)
-                .map_err(Details::WriteBytes)?;
+            let result = write_value_ref_owned_resolved(&self.resolved, v, &mut self.buffer)
+                .and_then(|_| {
+                    writer
+                        .write_all(&self.buffer)
+                        .map_err(|e| Details::WriteBytes(e).into())
+                });
+            // Always drain the buffer back to the header, also when encoding or writing failed,
+            // otherwise the left-over bytes would be sent as part of the next message.
             let len = self.buffer.len();
             self.buffer.truncate(original_length);
-            Ok(len)
+            result.map(|()| len)
         }
     }
 
